@@ -170,6 +170,10 @@ class PathState:
             return False
         if isinstance(c.func, ast.Name):
             return cn in PURE_BUILTINS or cn in self.pure or cn[:1].isupper()
+        if cn in MUTATORS:
+            # `x.append(..)` may be the builtin / lxml mutator whatever the package's own pure method of
+            # that name (Fragment.append) is: without the receiver's type the name decides nothing
+            return False
         return cn in self.pure or cn in PURE_EXTERNAL_METHODS
 
     def effects(self, e: ast.AST | None) -> None:
